@@ -158,6 +158,7 @@ type world struct {
 	fileOf  map[*ast.FuncDecl]string
 	facts   map[fieldKey]*fieldFact
 	notes   []string
+	localFn map[types.Object]*ast.FuncLit // see localFuncs
 }
 
 func (w *world) note(f string, a ...any) { w.notes = append(w.notes, fmt.Sprintf(f, a...)) }
